@@ -17,9 +17,10 @@ from ..symreal.core import S, symarr, vjp, new_session, evalarr
 from ..symreal.discharge import prove_equal
 from ..symreal.pool import run_catalogue
 
-ALPHABET = ["B0", "B1", "B2", "B3", "B4", "B5", "BW_last", "BW_prev", "BW_int", "BW_leaf_a", "BWR_last", "BWR_int", "RET_int", "RET_last", "Z_a", "Z_mod", "Z_opt"]
+ALPHABET = ["B0", "B1", "B2", "B3", "B4", "B5", "B6", "BW_last", "BW_prev", "BW_int", "BW_leaf_a", "BWR_last", "BWR_int", "RET_int", "RET_last", "Z_a", "Z_mod", "Z_opt"]
 DESCR = {
     "B0": "r = a * b", "B1": "m = a + b; r = m * a", "B2": "r = sum(a * a)", "B3": "r = <previous result> * b  (reuse of an earlier result)", "B4": "m = exp(b); r = m * c", "B5": "u = unbind(a); r = u[0] * b + u[1] + a   (multi-output op whose operand is also used directly)",
+    "B6": "r = cross_entropy(stack([a, b]), labels [0, 1])   (a fused loss whose backward re-uses values of its forward)",
     "BW_last": "backward(last result, fresh g)", "BW_prev": "backward(previous result, fresh g)", "BW_int": "backward(last interior node m, fresh g)",
     "BW_leaf_a": "a.backward(fresh g)", "BWR_last": "with retain_grads(): backward(last result)", "BWR_int": "with retain_grads(): backward(last interior)",
     "RET_int": "m.retain_grad()", "RET_last": "<last result>.retain_grad()  (a tensor that is later used as a root)", "Z_a": "a.zero_()", "Z_mod": "Module.zero_grad()", "Z_opt": "Optimizer.zero_grad()",
@@ -113,6 +114,10 @@ class World:
         elif ev == "B5":
             u = F.unbind(a, 0)
             self.results.append(u[0] * b + u[1] + a)
+        elif ev == "B6":
+            import synapgrad.nn.functional as NF
+            from synapgrad.tensor import Tensor
+            self.results.append(NF.cross_entropy(F.stack([a, b], 0), Tensor(np.array([0, 1]))))
         elif ev in ("BW_last", "BW_prev", "BW_int", "BW_leaf_a"):
             t = self.target(ev)
             t.backward(self.fresh_g(t.shape))
@@ -168,7 +173,20 @@ class HistoryCase:
         return res
 
     def _run(self, res, seed):
+        # histories whose graphs contain value-dependent branches (max inside cross-entropy) are explored path by path
         sess = new_session()
+        ex = core.Explorer(max_paths=64)
+        stop = []
+
+        def one():
+            if not stop:
+                self._run_path(res, seed, sess, ex)
+                if res["failures"] or res["errors"] or res["status"] != "ok":
+                    stop.append(1)
+        ex.run(one)
+        res["paths"] = ex.paths
+
+    def _run_path(self, res, seed, sess, ex):
         fail = None
         with shim.symbolic(eps="native"):
             w = World("sym", sess)
@@ -243,7 +261,7 @@ class HistoryCase:
                         fail = ("%s.grad_shape" % _api(ev), "leaf %s gradient has shape %s" % (k, np.shape(got)), {**info, "leaf": k})
                         break
                     for i in range(2):
-                        v = prove_equal(S.of(got[i]), S.of(exp[i]), list(sess.pre) + sess.relevant_axioms([S.of(got[i]).n, S.of(exp[i]).n]))
+                        v = prove_equal(S.of(got[i]), S.of(exp[i]), list(sess.pre) + list(ex.pc) + sess.relevant_axioms(list(ex.pc) + [S.of(got[i]).n, S.of(exp[i]).n, S.of(got[i]).d, S.of(exp[i]).d]))
                         res["solver_s"] += v.seconds
                         if v.status == "discharged":
                             bump(v.backend)
@@ -284,6 +302,17 @@ class HistoryCase:
                 if fail:
                     break
             accs = acc
+        if not fail and ex.paths == 0 and any(e.startswith("BW") for e in self.events):
+            # floats: the same history natively on float64 leaves must give the accumulated sums to double precision (a gradient routed through a
+            # lower-precision buffer, or any other rounding beyond the leaf's own precision, is not "the sum of the true gradients")
+            rep = self._native_replay(sess, accs, {"event_index": len(self.events) - 1}, seed, rtol=1e-11, default_dtype=np.float32)   # the library's own default dtype
+            if rep.get("reproduced") and not rep.get("native_exception"):
+                res["obligations"] += 1
+                res["failures"].append({"obligation": "history.float64_accumulation_exact_to_double_precision", "what": "natively the leaf gradients after the history differ from the sum of "
+                                        "contributions beyond double precision (or the buffer is not float64): %s vs %s %s" % (rep.get("actual"), rep.get("expected"), rep.get("gradient_dtype", "")),
+                                        "reproduced": True, "replay": rep})
+            else:
+                res["faithful"] += 1        # bounded native evaluation, not a discharged obligation
         if fail:
             oname, what, info = fail
             rep = self._native_replay(sess, accs, info, seed)
@@ -295,7 +324,7 @@ class HistoryCase:
             else:
                 res["failures"].append({"obligation": oname, "what": what, "reproduced": False, "replay": rep})
 
-    def _native_replay(self, sess, acc, info, seed):
+    def _native_replay(self, sess, acc, info, seed, rtol=1e-6, default_dtype=np.float64):
         """run the same history on float64 and compare the leaf gradients with the specification terms evaluated at that point"""
         from ..symreal.harness import var_names
         rng = random.Random("%s|%d" % (self.events, seed))
@@ -310,11 +339,12 @@ class HistoryCase:
         upto = info["event_index"]
         rep = {"inputs": point, "history": list(self.events), "failing_event": upto}
         try:
-            with shim.native():
+            with shim.native(dtype=default_dtype):
                 w = World("nat", point=point)
                 for ev in self.events[: upto + 1]:
                     w.apply(ev)
                 got = {k: (None if t._grad is None else np.array(t._grad, dtype=np.float64)) for k, t in w.leaves.items()}
+                dtypes = {k: (None if t._grad is None else str(np.asarray(t._grad).dtype)) for k, t in w.leaves.items()}
                 gs_ok = all(np.array_equal(arr, snap) and gt.data is arr for gt, arr, snap in w.gs)
         except Exception as e:
             rep.update({"reproduced": True, "native_exception": "%s: %s" % (type(e).__name__, e)})
@@ -330,8 +360,11 @@ class HistoryCase:
             elif g is None:
                 if np.any(np.abs(exp[k]) > 1e-9):
                     bad.append(k)
-            elif g.shape != exp[k].shape or not np.allclose(g, exp[k], rtol=1e-6, atol=1e-9):
+            elif g.shape != exp[k].shape or not np.allclose(g, exp[k], rtol=rtol, atol=rtol * 1e-3):
                 bad.append(k)
+            elif dtypes[k] != "float64":
+                bad.append(k)           # a float64 leaf accumulating through a buffer of another dtype
+                rep["gradient_dtype"] = dtypes[k]
         if got["c"] is not None:
             bad.append("c")
         rep["actual"] = {k: (None if v is None else v.tolist()) for k, v in got.items()}
@@ -368,7 +401,7 @@ def histories(tier, seed):
     maxlen = 3
     for n in range(1, maxlen + 1):
         for h in itertools.product(ALPHABET, repeat=n):
-            if h[0] not in ("B0", "B1", "B2", "B3", "B4", "B5", "BW_leaf_a", "Z_a", "Z_mod", "Z_opt"):
+            if h[0] not in ("B0", "B1", "B2", "B3", "B4", "B5", "B6", "BW_leaf_a", "Z_a", "Z_mod", "Z_opt"):
                 continue
             if not any(e.startswith("BW") for e in h):
                 continue
@@ -376,7 +409,7 @@ def histories(tier, seed):
     # a build, optionally a retain_grad on its result / interior, then every ordered pair of backward calls (quick); every history of length 4
     # that starts with a build (thorough)
     BWS = [e for e in ALPHABET if e.startswith("BW")]
-    for b in ("B0", "B1", "B2", "B3", "B4", "B5"):
+    for b in ("B0", "B1", "B2", "B3", "B4", "B5", "B6"):
         if tier == "thorough":
             for h in itertools.product(ALPHABET, repeat=3):
                 if any(e.startswith("BW") for e in h):
@@ -389,7 +422,7 @@ def histories(tier, seed):
     extra = 600 if tier == "quick" else 6000
     for _ in range(extra):
         n = rng.choice([4, 4, 5, 6]) if tier == "thorough" else rng.choice([4, 4, 5])
-        h = [rng.choice(["B0", "B1", "B2", "B3", "B4", "B5"])]
+        h = [rng.choice(["B0", "B1", "B2", "B3", "B4", "B5", "B6"])]
         while len(h) < n:
             h.append(rng.choice(ALPHABET))
         hs.append(tuple(h))
